@@ -301,6 +301,52 @@ fn run_inner2(rng: &mut Rng, style: usize, trace: &mut Vec<(usize, Vec<D3>)>) ->
                         lowered = true;
                     }
                 }
+            } else if roll == 7 {
+                // a two-member class that dies by congruence while its other member waits for re-analysis: F = { X + W, X * 1 } (W = 0 * B,
+                // big), G = { d + W } with several users, X a bigger variant of d. The union X = d makes X + W congruent to d + W (F is
+                // merged into the busier G) and, in the same rebuild, lowers the datum of X * 1, which moves with F. Padding constants shift
+                // the class ids and thereby the order of the work list.
+                let i = rng.below(handles.len());
+                let t = handles[i].1.clone();
+                let big = |x: &str, k: usize| match k { 0 => format!("(add {x} 0)"), 1 => format!("(mul 1 {x})"), _ => format!("(add 0 (mul {x} 1))") };
+                let x = big(&t, rng.below(3));
+                let b = rename_text(["(add (var $p) (mul (var $q) (var $p)))", "(mul (add (var $q) 2) (add (var $p) (var $q)))", "(add (var $q) (add (var $q) (add (var $q) (var $p))))"][rng.below(3)], style);
+                let w = format!("(mul 0 {b})");
+                let m1 = format!("(add {x} {w})");
+                let m2 = match rng.below(3) { 0 => format!("(mul {x} 1)"), 1 => format!("(add {x} 0)"), _ => format!("(mul 1 {x})") };
+                let g = format!("(add {t} {w})");
+                desc = format!("add {m1}; add {m2}; union them; add {g} with users; union {x} = {t}");
+                for _ in 0..rng.below(6) {
+                    let k = 1000 + rng.below(1000);
+                    eg.add_expr(RecExpr::parse(&format!("{k}")).unwrap());
+                }
+                let order = rng.chance(1, 2);
+                let mut build_f = |eg: &mut EGraph<LArith, A3>, handles: &mut Vec<(AppliedId, String)>| {
+                    let a = eg.add_expr(RecExpr::parse(&m1).unwrap());
+                    let c = eg.add_expr(RecExpr::parse(&m2).unwrap());
+                    eg.union(&a, &c);
+                    handles.push((a, m1.clone()));
+                    handles.push((c, m2.clone()));
+                };
+                if order {
+                    build_f(&mut eg, &mut handles);
+                }
+                let gh = eg.add_expr(RecExpr::parse(&g).unwrap());
+                handles.push((gh, g.clone()));
+                for u in 0..rng.range(1, 4) {
+                    let ut = match u % 3 { 0 => format!("(mul {} {g})", 2 + u), 1 => format!("(add {g} {})", 2 + u), _ => format!("(mul {g} {g})") };
+                    let uh = eg.add_expr(RecExpr::parse(&ut).unwrap());
+                    handles.push((uh, ut));
+                }
+                if !order {
+                    build_f(&mut eg, &mut handles);
+                }
+                let xh = eg.add_expr(RecExpr::parse(&x).unwrap());
+                let a = handles[i].0.clone();
+                handles.push((xh.clone(), x.clone()));
+                united = Some((i, handles.len() - 1));
+                eg.union(&xh, &a);
+                lowered = true;
             } else if eg.total_number_of_nodes() < 120 {
                 desc = format!("rewrite {:?}", chosen.iter().map(|r| r.name).collect::<Vec<_>>());
                 apply_rewrites(&mut eg, &rws);
